@@ -76,6 +76,8 @@ def b_len(vm, args, kwargs, ctx):
         return SInt(z3.Length(x.t))
     if isinstance(x, I.LazyGen):
         raise PyRaise(I.ExcClass('TypeError'))
+    if hasattr(x, 'sym_len'):
+        return x.sym_len(vm)
     if isinstance(x, SRef):
         hook = vm.hooks.get('len')
         if hook:
@@ -522,6 +524,17 @@ def b_sorted(vm, args, kwargs, ctx):
 
 def b_map(vm, args, kwargs, ctx):
     fn, it = args[0], args[1]
+    if isinstance(it, SSeq) and not z3.is_int_value(z3.simplify(it.length)):
+        # map over a sequence of symbolic length; it is consumed (materialised) by the caller at once, so the
+        # callee's effects (a rejecting check) are modelled here -- see Interp.map_effects
+        def elem(i):
+            vm.pure += 1
+            try:
+                return vm.call(fn, [it.elem(i)], {})
+            finally:
+                vm.pure -= 1
+        vm.map_effects(it.length, elem)
+        return SSeq(it.length, elem, 'map(%s)' % it.name)
     return [vm.call(fn, [x], {}) for x in vm.iterate(it)]
 
 
